@@ -64,11 +64,19 @@ def Sch.flushEmpties (a : Sch) (p : Nat) : Nat → Sch
     | [] :: _ => (a.appendOne p).flushEmpties p fuel
     | _ => a
 
+/-- an append by the sink callback (`sinkTid`) needs the back end inside a callback: advance it to the
+next one.  Only buffers that are already queued are delivered for that (no timed hand-over is forced). -/
+def Sch.hostNested (a : Sch) (p : Nat) : Sch :=
+  if p != sinkTid || a.err.isSome || a.s.bpc.isInCb then a
+  else if a.s.full.isEmpty then { a with err := some "no sink callback in progress or pending to host the nested append" }
+  else a.backendUntil (fun s => s.bpc.isInCb) (8 * (a.s.buffNum + 3))
+
 /-- the appends in observed order; `w` = stream offset so far; a block boundary at the end of an
 append with a partial current buffer = the timed hand-over took it there -/
 def Sch.appends (a : Sch) (bounds : List Nat) (maxEmpties : Nat) (w : Nat) : List (Nat × List UInt8) → Sch
   | [] => a
   | pd :: rest =>
+    let a := a.hostNested pd.1
     let a1 := (a.flushEmpties pd.1 maxEmpties).appendOne pd.1
     let w1 := w + pd.2.length
     let a2 := if a1.s.curr.isSome && bounds.contains w1 then
@@ -166,6 +174,14 @@ theorem cert_flushEmpties (p : Nat) (fuel : Nat) : ∀ (a : Sch), Cert a → Cer
       · exact ih _ (cert_appendOne a p h)
       · exact h
 
+theorem cert_hostNested (a : Sch) (p : Nat) (h : Cert a) : Cert (a.hostNested p) := by
+  unfold Sch.hostNested
+  split
+  · exact h
+  · split
+    · exact h
+    · exact cert_backendUntil _ _ _ h
+
 theorem cert_appends (bounds : List Nat) (mx : Nat) (l : List (Nat × List UInt8)) :
     ∀ (a : Sch) (w : Nat), Cert a → Cert (a.appends bounds mx w l) := by
   induction l with
@@ -174,7 +190,7 @@ theorem cert_appends (bounds : List Nat) (mx : Nat) (l : List (Nat × List UInt8
     intro a w h
     unfold Sch.appends
     apply ih
-    have h1 := cert_appendOne _ pd.1 (cert_flushEmpties pd.1 mx a h)
+    have h1 := cert_appendOne _ pd.1 (cert_flushEmpties pd.1 mx _ (cert_hostNested a pd.1 h))
     split
     · exact cert_backendUntil _ _ _ h1
     · exact h1
@@ -233,6 +249,14 @@ theorem s0_flushEmpties (p : Nat) (fuel : Nat) : ∀ (a : Sch), (a.flushEmpties 
       · rw [ih, s0_appendOne]
       · rfl
 
+theorem s0_hostNested (a : Sch) (p : Nat) : (a.hostNested p).s0 = a.s0 := by
+  unfold Sch.hostNested
+  split
+  · rfl
+  · split
+    · rfl
+    · exact s0_backendUntil _ _ _
+
 theorem s0_appends (bounds : List Nat) (mx : Nat) (l : List (Nat × List UInt8)) :
     ∀ (a : Sch) (w : Nat), (a.appends bounds mx w l).s0 = a.s0 := by
   induction l with
@@ -240,8 +264,8 @@ theorem s0_appends (bounds : List Nat) (mx : Nat) (l : List (Nat × List UInt8))
   | cons pd rest ih =>
     intro a w; unfold Sch.appends; rw [ih]
     split
-    · rw [s0_backendUntil, s0_appendOne, s0_flushEmpties]
-    · rw [s0_appendOne, s0_flushEmpties]
+    · rw [s0_backendUntil, s0_appendOne, s0_flushEmpties, s0_hostNested]
+    · rw [s0_appendOne, s0_flushEmpties, s0_hostNested]
 
 theorem s0_flushAll (mx : Nat) (ps : List Nat) : ∀ (a : Sch), (a.flushAll mx ps).s0 = a.s0 := by
   induction ps with
